@@ -13,8 +13,52 @@ inductive ResRef where
   | cumul (n : String)
   deriving Repr, Inhabited
 
-/-- the public constructor calls of the core (tasks and resources) -/
-inductive CoreDecl where
+/-- operand of a connective: an existing constraint, or a raw z3 expression -/
+inductive Operand where
+  | ref (id : Nat)
+  | raw (f : Fml)
+  deriving Inhabited
+
+/-- constraint constructor calls, references by name / id -/
+inductive CDecl where
+  | startAt (t : String) (v : Int)
+  | startAfter (t : String) (v : Int) (strict : Bool)
+  | endAt (t : String) (v : Int)
+  | endBefore (t : String) (v : Int) (strict : Bool)
+  | precedence (before after : String) (offset : Int) (kind : OrdKind)
+  | startSynced (t1 t2 : String)
+  | endSynced (t1 t2 : String)
+  | dontOverlap (t1 t2 : String)
+  | contiguous (ts : List String)
+  | unorderedGroup (ts : List String) (window : Option (Int × Int)) (len : Int)
+  | orderedGroup (ts : List String) (window : Option (Int × Int)) (len : Int) (kind : OrdKind)
+  | scheduleN (ts : List String) (n : Int) (intervals : List (Int × Int)) (kind : CountKind)
+  | forceSchedule (t : String) (b : Bool)
+  | conditionSchedule (t : String) (cond : Fml)
+  | dependency (t1 t2 : String)
+  | forceScheduleN (ts : List String) (n : Int) (kind : CountKind)
+  | fromExpr (f : Fml)
+  | forceApplyN (cs : List Nat) (n : Int) (kind : CountKind)
+  | not_ (o : Operand)
+  | or_ (os : List Operand)
+  | and_ (os : List Operand)
+  | xor_ (o1 o2 : Operand)
+  | implies (cond : Fml) (os : List Operand)
+  | ifThenElse (cond : Fml) (os1 os2 : List Operand)
+  | unavailable (res : String) (intervals : List (Int × Int))
+  | workload (res : String) (intervals : List ((Int × Int) × Int)) (kind : CountKind)
+  | nonDelay (res : String)
+  | distance (res : String) (d : Int) (intervals : Option (List (Int × Int))) (mode : CountKind)
+  | sameWorkers (s1 s2 : Nat)
+  | distinctWorkers (s1 s2 : Nat)
+  | unloadBuffer (t : String) (b : String) (q : Int)
+  | loadBuffer (t : String) (b : String) (q : Int)
+  | indicatorTarget (i : Nat) (v : Int)
+  | indicatorBounds (i : Nat) (lo hi : Option Int)
+  deriving Inhabited
+
+/-- the public constructor calls -/
+inductive Decl where
   | problem (name : String) (horizon : Option Int)
   | task (name : String) (kind : TaskKind) (optional : Bool) (work : Int)
          (release due : Option Int) (deadline : Bool) (prio : Int)
@@ -22,6 +66,8 @@ inductive CoreDecl where
   | cumulative (name : String) (size : Int) (prod : Int) (cost : Cost)
   | select (name : Option String) (workers : List String) (n : Int) (kind : CountKind)
   | require (task : String) (res : ResRef) (dynamic : Bool) (delayIn earlyOut : Int)
+  | constr (name : Option String) (optional : Bool) (c : CDecl)
+  | buffer (name : String) (concurrent : Bool) (initial final lb ub : Option Int)
   deriving Inhabited
 
 abbrev Res := State × Option Err
@@ -44,30 +90,20 @@ def taskFieldsValid (kind : TaskKind) (work prio : Int) : Bool :=
 
 /-! ### problem -/
 
-def stepProblem (name : String) (horizon : Option Int) : Res :=
+def stepProblem (st : State) (name : String) (horizon : Option Int) : Res :=
   match horizon with
-  | some h =>
-      if h > 0 then
-        ok { active := true, pname := name, horizon := some h,
-             passerts := [.le (.var .horizon) (numT h)] }
-      else fail {} .validation       -- handled by caller: state unchanged on validation error
+  | some h => if h > 0 then ok { active := true, pname := name, horizon := some h } else fail st .validation
   | none => ok { active := true, pname := name }
 
 /-! ### tasks -/
-
-def mkTask (st : State) (name : String) (kind : TaskKind) (optional : Bool) (work : Int)
-    (release due : Option Int) (deadline : Bool) (prio : Int) : Task :=
-  let t : Task := { name, num := st.tasks.length + 1, kind, optional, work, release, due, deadline,
-                    prio, asserts := [], reqs := [] }
-  { t with asserts := t.initAsserts }
 
 def stepTask (st : State) (name : String) (kind : TaskKind) (optional : Bool) (work : Int)
     (release due : Option Int) (deadline : Bool) (prio : Int) : Res :=
   if !taskFieldsValid kind work prio then fail st .validation
   else if !st.active then fail st .assertion
   else if st.tasks.any (·.name == name) then fail st .value
-  else ok { st with tasks := st.tasks ++ [mkTask st name kind optional work release due deadline prio],
-                    nobj := st.nobj + 1 }
+  else ok { st with tasks := st.tasks ++ [{ name, num0 := st.tasks.length, kind, optional, work, release,
+                                            due, deadline, prio }] }
 
 /-! ### workers -/
 
@@ -75,7 +111,7 @@ def stepWorker (st : State) (name : String) (prod : Int) (cost : Cost) (cumulOf 
   if prod < 0 then fail st .validation
   else if !st.active then fail st .assertion
   else if st.workers.any (·.name == name) then fail st .value
-  else ok { st with workers := st.workers ++ [{ name, prod, cost, busy := [], cumulOf }], nobj := st.nobj + 1 }
+  else ok { st with workers := st.workers ++ [{ name, prod, cost, cumulOf }] }
 
 /-- create the unit workers one after the other; the first failure stops (units already
     registered stay registered) -/
@@ -98,8 +134,7 @@ def stepCumulative (st : State) (name : String) (size : Int) (prod : Int) (cost 
         match addUnits st name units with
         | (st', none) =>
             if st'.cumuls.any (·.name == name) then fail st' .value
-            else ok { st' with cumuls := st'.cumuls ++ [{ name, size := n, units := units.map (·.1) }],
-                               nobj := st'.nobj + 1 }
+            else ok { st' with cumuls := st'.cumuls ++ [{ name, size := n, units := units.map (·.1) }] }
         | r => r
     | _ => fail st .assertion      -- `_distribute_p_over_n`: "wrong type for parameter p"
 
@@ -110,56 +145,32 @@ def stepSelect (st : State) (name : Option String) (workers : List String) (n : 
   else if workers.any (fun w => (st.findWorker w).isNone) then fail st .validation   -- not a Worker instance
   else if n > workers.length then fail st .value
   else if !st.active then fail st .attribute
-  else
-    match name with
-    | some nm =>
-        if st.selects.any (·.name == some nm) then fail st .value
-        else ok { st with selects := st.selects ++ [{ id := st.selects.length, name, workers, n := n.toNat, kind }],
-                          nobj := st.nobj + 1 }
-    | none => ok { st with selects := st.selects ++ [{ id := st.selects.length, name, workers, n := n.toNat, kind }],
-                            nobj := st.nobj + 1 }
+  else if name.isSome && st.selects.any (·.name == name) then fail st .value
+  else ok { st with selects := st.selects ++ [{ id := st.selects.length, name, workers, n := n.toNat, kind }] }
 
 /-! ### requirements (task.py:113-190) -/
 
-/-- `append_z3_assertion` on a task: duplicate formulas raise AssertionError -/
-def Task.append (t : Task) (a : Fml) : Option Task :=
-  if t.asserts.any (·.same a) then none else some { t with asserts := t.asserts ++ [a] }
+/-- index of the first formula that already occurred earlier in the list
+    (`append_z3_assertion` raises AssertionError on it) -/
+def firstDup (seen : List String) : List Fml → Nat → Option Nat
+  | [], _ => none
+  | a :: as, k =>
+      let p := a.print
+      if seen.contains p then some k else firstDup (p :: seen) as (k + 1)
 
-def Task.appendAll (t : Task) : List Fml → Option Task
-  | [] => some t
-  | a :: as => match t.append a with | some t' => t'.appendAll as | none => none
+def selReqs (sid : Nat) (base : Nat) (ws : List String) : List Req :=
+  (List.range ws.length).map (fun i =>
+    { worker := ws.getD i "", maybe := true, sel := some sid, dynamic := false, delayIn := 0,
+      earlyOut := 0, past0 := base + i })
 
-/-- one worker of a selection: busy interval, `If(selected, …)` assertion, required list -/
-def requireSelWorker (st : State) (tname : String) (sid : Nat) (w : String) : Res :=
-  match st.findTask tname with
-  | none => fail st .other
-  | some t =>
-    let past := st.uniq - 1
-    let r : Req := { worker := w, maybe := true, sel := some sid, dynamic := false, delayIn := 0,
-                     earlyOut := 0, past }
-    let st := (st.updWorker w (fun wk => { wk with busy := dictSet wk.busy tname true }))
-    let st := { st with uniq := past }
-    match t.appendAll (r.fmls t) with
-    | none => fail st .assertion
-    | some t' => ok (st.updTask tname (fun _ => { t' with reqs := t'.reqs ++ [r] }))
-
-def requireSelWorkers (st : State) (tname : String) (sid : Nat) : List String → Res
-  | [] => ok st
-  | w :: ws =>
-      match requireSelWorker st tname sid w with
-      | (st', none) => requireSelWorkers st' tname sid ws
-      | r => r
-
-def requireSelect (st : State) (tname : String) (s : Select) : Res :=
-  match requireSelWorkers st tname s.id s.workers with
-  | (st', none) =>
-      match st'.findTask tname with
-      | none => fail st' .other
-      | some t =>
-        match t.append s.assertion with
-        | none => fail st' .assertion
-        | some t' => ok (st'.updTask tname (fun _ => t'))
-  | r => r
+def requireSelect (st : State) (t : Task) (s : Select) : Res :=
+  let rs := selReqs s.id st.nPast s.workers
+  let st1 := { st with nPast := st.nPast + s.workers.length }
+  let ev := ReqEvent.viaSelect t.name s rs true
+  let st2 := { st1 with reqLog := st1.reqLog ++ [ev] }
+  match firstDup [] (st2.taskAsserts t) 0 with
+  | none => ok st2
+  | some _ => fail { st1 with reqLog := st1.reqLog ++ [ReqEvent.viaSelect t.name s rs false] } .assertion
 
 def stepRequire (st : State) (tname : String) (res : ResRef) (dynamic : Bool) (delayIn earlyOut : Int) : Res :=
   match st.findTask tname with
@@ -170,17 +181,14 @@ def stepRequire (st : State) (tname : String) (res : ResRef) (dynamic : Bool) (d
         match st.findWorker w with
         | none => fail st .type_
         | some _ =>
-          if t.reqs.any (·.worker == w) then fail st .value
+          if (st.reqsOf tname).any (·.worker == w) then fail st .value
           else
-            let r : Req := { worker := w, maybe := false, sel := none, dynamic, delayIn, earlyOut, past := 0 }
-            let st := st.updWorker w (fun wk => { wk with busy := dictSet wk.busy tname false })
-            match t.appendAll (r.fmls t) with
-            | none => fail st .assertion
-            | some t' => ok (st.updTask tname (fun _ => { t' with reqs := t'.reqs ++ [r] }))
+            let r : Req := { worker := w, maybe := false, sel := none, dynamic, delayIn, earlyOut, past0 := 0 }
+            ok { st with reqLog := st.reqLog ++ [.direct tname r] }
     | .select i =>
         match st.findSelect i with
         | none => fail st .type_
-        | some s => requireSelect st tname s
+        | some s => requireSelect st t s
     | .cumul c =>
         match st.findCumul c with
         | none => fail st .type_
@@ -189,20 +197,188 @@ def stepRequire (st : State) (tname : String) (res : ResRef) (dynamic : Bool) (d
           match stepSelect st none cw.units 1 .min with
           | (st', none) =>
               match st'.selects.getLast? with
-              | some s => requireSelect st' tname s
+              | some s => requireSelect st' t s
               | none => fail st' .other
           | r => r
 
-def stepCore (st : State) : CoreDecl → Res
-  | .problem name horizon =>
-      match stepProblem name horizon with
-      | (st', none) => ok st'
-      | (_, some e) => fail st e
+/-! ### constraints -/
+
+/-- busy intervals a resource constraint sees: the worker's own, or (for the classes that look
+    inside a cumulative worker) those of all its units, in unit order -/
+def State.resBusy (st : State) (res : String) (intoUnits : Bool) : Option (List BusyRef) :=
+  match st.findWorker res with
+  | some _ => some (st.busyRefs res)
+  | none =>
+    match st.findCumul res with
+    | some cw => some (if intoUnits then cw.units.flatMap st.busyRefs else [])
+    | none => none
+
+def State.operand (st : State) : Operand → Option (List Fml)
+  | .raw f => some [f]
+  | .ref i => (st.findConstr i).map (·.asserts)
+
+def operandRefs : List Operand → List Nat
+  | [] => []
+  | .ref i :: r => i :: operandRefs r
+  | .raw _ :: r => operandRefs r
+
+def State.markOperands (st : State) (ids : List Nat) : State :=
+  { st with constrs := st.constrs.map (fun c => if ids.contains c.id then { c with operand := true } else c) }
+
+/-- outcome of resolving a constraint declaration -/
+inductive Resolved where
+  | body (b : CBody) (marks : List Nat)    -- constructor runs to the end
+  | raises (e : Err) (marks : List Nat)    -- registered, then raises (residue)
+  | invalid (e : Err)                      -- rejected before registration
+  deriving Inhabited
+
+def State.tasksNamed (st : State) (ns : List String) : Option (List Task) := ns.mapM st.findTask
+def State.operands (st : State) (os : List Operand) : Option (List (List Fml)) := os.mapM st.operand
+
+def className : CDecl → String
+  | .startAt .. => "TaskStartAt" | .startAfter .. => "TaskStartAfter" | .endAt .. => "TaskEndAt"
+  | .endBefore .. => "TaskEndBefore" | .precedence .. => "TaskPrecedence"
+  | .startSynced .. => "TasksStartSynced" | .endSynced .. => "TasksEndSynced"
+  | .dontOverlap .. => "TasksDontOverlap" | .contiguous .. => "TasksContiguous"
+  | .unorderedGroup .. => "UnorderedTaskGroup" | .orderedGroup .. => "OrderedTaskGroup"
+  | .scheduleN .. => "ScheduleNTasksInTimeIntervals" | .forceSchedule .. => "OptionalTaskForceSchedule"
+  | .conditionSchedule .. => "OptionalTaskConditionSchedule" | .dependency .. => "OptionalTasksDependency"
+  | .forceScheduleN .. => "ForceScheduleNOptionalTasks" | .fromExpr .. => "ConstraintFromExpression"
+  | .forceApplyN .. => "ForceApplyNOptionalConstraints" | .not_ .. => "Not" | .or_ .. => "Or"
+  | .and_ .. => "And" | .xor_ .. => "Xor" | .implies .. => "Implies" | .ifThenElse .. => "IfThenElse"
+  | .unavailable .. => "ResourceUnavailable" | .workload .. => "WorkLoad" | .nonDelay .. => "ResourceNonDelay"
+  | .distance .. => "ResourceTasksDistance" | .sameWorkers .. => "SameWorkers"
+  | .distinctWorkers .. => "DistinctWorkers" | .unloadBuffer .. => "TaskUnloadBuffer"
+  | .loadBuffer .. => "TaskLoadBuffer" | .indicatorTarget .. => "IndicatorTarget"
+  | .indicatorBounds .. => "IndicatorBounds"
+
+/-- resolve references, run the explicit `raise` checks of the constructor -/
+def State.resolve (st : State) : CDecl → Resolved
+  | .startAt t v => match st.findTask t with | some t => .body (.startAt t v) [] | none => .invalid .validation
+  | .startAfter t v s => match st.findTask t with | some t => .body (.startAfter t v s) [] | none => .invalid .validation
+  | .endAt t v => match st.findTask t with | some t => .body (.endAt t v) [] | none => .invalid .validation
+  | .endBefore t v s => match st.findTask t with | some t => .body (.endBefore t v s) [] | none => .invalid .validation
+  | .precedence b a off kind =>
+      if off < 0 then .invalid .validation else
+      match st.findTask b, st.findTask a with
+      | some b, some a => .body (.precedence b a off kind) []
+      | _, _ => .invalid .validation
+  | .startSynced a b => match st.findTask a, st.findTask b with
+      | some a, some b => .body (.startSynced a b) [] | _, _ => .invalid .validation
+  | .endSynced a b => match st.findTask a, st.findTask b with
+      | some a, some b => .body (.endSynced a b) [] | _, _ => .invalid .validation
+  | .dontOverlap a b => match st.findTask a, st.findTask b with
+      | some a, some b => .body (.dontOverlap a b) [] | _, _ => .invalid .validation
+  | .contiguous ts => match st.tasksNamed ts with | some ts => .body (.contiguous ts) [] | none => .invalid .validation
+  | .unorderedGroup ts w len => match st.tasksNamed ts with
+      | some ts => .body (.unorderedGroup ts w len) [] | none => .invalid .validation
+  | .orderedGroup ts w len k => match st.tasksNamed ts with
+      | some ts => .body (.orderedGroup ts w len k) [] | none => .invalid .validation
+  | .scheduleN ts n ivs k =>
+      if n < 0 then .invalid .other else
+      match st.tasksNamed ts with
+      | some ts => .body (.scheduleN ts n.toNat ivs k) [] | none => .invalid .validation
+  | .forceSchedule t b => match st.findTask t with
+      | some t => if t.optional then .body (.forceSchedule t b) [] else .raises .type_ []
+      | none => .invalid .validation
+  | .conditionSchedule t c => match st.findTask t with
+      | some t => if t.optional then .body (.conditionSchedule t c) [] else .raises .type_ []
+      | none => .invalid .validation
+  | .dependency a b => match st.findTask a, st.findTask b with
+      | some a, some b => if b.optional then .body (.dependency a b) [] else .raises .type_ []
+      | _, _ => .invalid .validation
+  | .forceScheduleN ts n k =>
+      if n ≤ 0 then .invalid .validation else
+      match st.tasksNamed ts with
+      | some ts => if ts.all (·.optional) then .body (.forceScheduleN ts n.toNat k) [] else .raises .type_ []
+      | none => .invalid .validation
+  | .fromExpr f => .body (.fromExpr f) []
+  | .forceApplyN cs n k =>
+      if n ≤ 0 then .invalid .validation else
+      match cs.mapM st.findConstr with
+      | some l => if l.all (·.optional) then .body (.forceApplyN cs n.toNat k) [] else .raises .type_ []
+      | none => .invalid .validation
+  | .not_ o => match st.operand o with
+      | some l => .body (.not_ l) (operandRefs [o]) | none => .invalid .validation
+  | .or_ os => match st.operands os with
+      | some l => .body (.or_ l) (operandRefs os) | none => .invalid .validation
+  | .and_ os => match st.operands os with
+      | some l => .body (.and_ l) (operandRefs os) | none => .invalid .validation
+  | .xor_ a b => match st.operand a, st.operand b with
+      | some a', some b' => .body (.xor_ a' b') (operandRefs [a, b]) | _, _ => .invalid .validation
+  | .implies c os => match st.operands os with
+      | some l => .body (.implies c l) (operandRefs os) | none => .invalid .validation
+  | .ifThenElse c os1 os2 => match st.operands os1, st.operands os2 with
+      | some l1, some l2 => .body (.ifThenElse c l1 l2) (operandRefs (os1 ++ os2)) | _, _ => .invalid .validation
+  | .unavailable res ivs => match st.resBusy res true with
+      | some busy => if busy.isEmpty || ivs.isEmpty then .raises .assertion [] else .body (.unavailable busy ivs) []
+      | none => .invalid .validation
+  | .workload res ivs k => match st.resBusy res true with
+      | some busy => if busy.isEmpty && !ivs.isEmpty then .raises .assertion [] else .body (.workload busy ivs k) []
+      | none => .invalid .validation
+  | .nonDelay res => match st.resBusy res false with
+      | some busy => .body (.nonDelay busy) [] | none => .invalid .validation
+  | .distance res d ivs m => match st.resBusy res false with
+      | some busy => if busy.length < 2 then .raises .assertion [] else .body (.distance busy d ivs m) []
+      | none => .invalid .validation
+  | .sameWorkers a b => match st.findSelect a, st.findSelect b with
+      | some a, some b => .body (.sameWorkers a b) [] | _, _ => .invalid .validation
+  | .distinctWorkers a b => match st.findSelect a, st.findSelect b with
+      | some a, some b => .body (.distinctWorkers a b) [] | _, _ => .invalid .validation
+  | .unloadBuffer t b q => match st.findTask t, st.findBuffer b with
+      | some t, some _ => .body (.unloadBuffer t b q) [] | _, _ => .invalid .validation
+  | .loadBuffer t b q => match st.findTask t, st.findBuffer b with
+      | some t, some _ => .body (.loadBuffer t b q) [] | _, _ => .invalid .validation
+  | .indicatorTarget i v => match st.findIndicator i with
+      | some ind => .body (.indicatorTarget ind.var v) [] | none => .invalid .validation
+  | .indicatorBounds i lo hi => match st.findIndicator i with
+      | some ind => if lo.isNone && hi.isNone then .raises .assertion [] else .body (.indicatorBounds ind.var lo hi) []
+      | none => .invalid .validation
+
+def stepConstr (st : State) (name : Option String) (optional : Bool) (d : CDecl) : Res :=
+  match st.resolve d with
+  | .invalid e => fail st e
+  | .raises e marks =>
+      if !st.active then fail st .attribute
+      else if name.isSome && st.constrs.any (·.name == name) then fail st .value
+      else
+        let c : Constr := { id := st.constrs.length, name, cls := className d, optional, operand := false, body := .residue }
+        fail ({ st with constrs := st.constrs ++ [c] }.markOperands marks) e
+  | .body b marks =>
+      if !st.active then fail st .attribute
+      else if name.isSome && st.constrs.any (·.name == name) then fail st .value
+      else
+        let c : Constr := { id := st.constrs.length, name, cls := className d, optional, operand := false, body := b }
+        let st' := ({ st with constrs := st.constrs ++ [c] }).markOperands marks
+        match firstDup [] c.asserts 0 with
+        | none => ok st'
+        | some k =>
+            let c' := { c with body := .partial_ ((b.raw c.id).take k) }
+            fail ({ st with constrs := st.constrs ++ [c'] }.markOperands marks) .assertion
+
+/-! ### buffers -/
+
+def stepBuffer (st : State) (name : String) (concurrent : Bool) (initial final lb ub : Option Int) : Res :=
+  if !st.active then fail st .assertion
+  else if initial.isNone && final.isNone then fail st .assertion
+  else if st.buffers.any (·.name == name) then fail st .value
+  else ok { st with buffers := st.buffers ++ [{ name, concurrent, initial, final, lb, ub }] }
+
+def step (st : State) : Decl → Res
+  | .problem name horizon => stepProblem st name horizon
   | .task name kind optional work release due deadline prio =>
       stepTask st name kind optional work release due deadline prio
   | .worker name prod cost => stepWorker st name prod cost
   | .cumulative name size prod cost => stepCumulative st name size prod cost
   | .select name workers n kind => stepSelect st name workers n kind
   | .require task res dynamic delayIn earlyOut => stepRequire st task res dynamic delayIn earlyOut
+  | .constr name optional c => stepConstr st name optional c
+  | .buffer name conc i f lb ub => stepBuffer st name conc i f lb ub
+
+/-- run a whole script, continuing after errors (as an interactive Python session would) -/
+def run (ds : List Decl) : State := ds.foldl (fun st d => (step st d).1) {}
+
+/-- states a script can produce -/
+def Reachable (st : State) : Prop := ∃ ds, run ds = st
 
 end PS
